@@ -220,7 +220,11 @@ Ideal3D(p) ==
 \* an imported node is a node of the environment like any other and keeps the constraint lines of its
 \* definition: the ORIGINAL (never modified: its final value is the definition's) and the modified COPY
 \* must both satisfy them (a remote original is judged when its source file is parsed)
+\* place = "mod" with an import: the constraint lines follow the last modification of the COPY and belong to
+\* the copy alone - the original keeps what its own definition carried (here: nothing)
+Bare(p) == [p EXCEPT !.mods = <<>>, !.cons = <<>>, !.place = "def"]
 Ideal3V(p) == IF p.via = "direct" THEN Ideal3D(p)
+              ELSE IF p.place = "mod" THEN AndAll3({Ideal3D(Bare(p)), Ideal3D(p)})
               ELSE AndAll3({Ideal3D([p EXCEPT !.mods = <<>>]), Ideal3D(p)})
 
 \* the reference node has been modified: the comparisons with it see its final value
@@ -339,6 +343,7 @@ MachD(p, devs) ==
 Both(o, c) == IF o = "reject" \/ c = "reject" THEN "reject" ELSE IF o = "na" \/ c = "na" THEN "na" ELSE "accept"
 MachV(p, devs) ==
   IF p.via = "direct" THEN MachD(p, devs)
+  ELSE IF p.place = "mod" THEN Both(MachD(Bare(p), devs), MachD(p, devs))      \* Node.copy gives the copy its own option list
   ELSE Both(MachD([p EXCEPT !.mods = <<>>], devs), MachD(p, devs))
 \* the validation loop runs over ALL nodes of the target environment at the end of every parse and
 \* LogicalSolver requests a fresh copy of a referenced node for every occurrence: final values decide
@@ -574,7 +579,7 @@ SetVia == /\ ph = 1 /\ (IF IsArr(p) THEN TRUE ELSE Coarse(p)) /\ (IF Len(p.dims)
 SetBy == /\ ph = 1 /\ ~IsArr(p) /\ p.mods # <<>> /\ Coarse(p)
          /\ \E y \in ByPool(p.ty, p.nu) : p' = [p EXCEPT !.by = y]
          /\ ph' = 2 /\ lv' = lv
-SetPlace == /\ ph \in {1, 2} /\ ~IsArr(p) /\ p.mods # <<>> /\ Coarse(p) /\ p.via = "direct"
+SetPlace == /\ ph \in {1, 2} /\ ~IsArr(p) /\ p.mods # <<>> /\ Coarse(p)
             /\ p' = [p EXCEPT !.place = "mod"]
             /\ ph' = 3 /\ lv' = lv
 AddCons == /\ ph \in 1..4 /\ ~IsArr(p)
